@@ -4,6 +4,7 @@ From Coq Require Import List NArith ZArith.
 From BLB Require Import Lib.LTS Raft.Core Raft.Wire Raft.Legit Raft.NodeProofs Raft.NodeElect Raft.NodeMono Raft.Election
      Raft.LogMatchLists Raft.LogMatch Raft.LogMatchNodeS Raft.CompletenessCommit Raft.SnapContig Raft.SnapContigSys Raft.SnapSystem
      C07.A_Witness C07.A_Repaired C07.A_Proofs C07.A_Wedge C07.A_NoFatal C07.A_Restart C07.A_Vote C07.A_RestartExample C07.A_FsmMember.
+From BLB Require Raft.MemberVotes Raft.MemberRun Raft.MemberSnapSystemU C07.A_VoteC.
 Import ListNotations.
 Open Scope N_scope.
 
@@ -219,3 +220,21 @@ Theorem restart_reads_group_from_snapshot :
    lives ex_L (Some m2) /\ sn_index m2 = 4 /\ exists c, sn_conf m2 = Some c /\ mb_members c = [1; 2; 3]).
 Proof. split; [exact init_latest_conf_from_snapshot | exact ex_two_lives]. Qed.
 Print Assumptions restart_reads_group_from_snapshot.
+
+(* [FULL] part A, crash_steps_keep_store_shape over C02's COMBINED alphabet cstep (membership changes AddNode and RemoveNode together with snapshots, SnapshotDone and InstallSnapshot, every step with a crash after any durable mutation followed by newCore): in every state of every run every node has a ghost prefix C under which its store has the shape of its snapshot (logical log contiguous from 1, snapshot names one of its positions with that entry's term, at most the commit index), the snapshot metadata carries the configuration of the prefix it covers (shapeC), and terms along the logical log are non-decreasing and bounded by the durable term *)
+Theorem crash_steps_keep_store_shape_combined :
+  forall bm be, NoDup bm ->
+  forall a0 a sched, Raft.MemberRun.minitS a0 -> run Raft.MemberVotes.asys sys_event (Raft.MemberSnapSystemU.cstep bm be) a0 sched a ->
+    forall x, In x (sy_nodes (fst a)) -> exists C, C07.A_VoteC.store_inv_c C x.
+Proof. exact C07.A_VoteC.crash_steps_keep_shape_combined_lemma. Qed.
+Print Assumptions crash_steps_keep_store_shape_combined.
+
+(* [FULL] part A, vote_respects_snapshot over the same combined alphabet: in every reachable state a node that holds a snapshot grants its vote only to a candidate whose last term is above the snapshot's term, or equal to it with a last index at least the snapshot's index *)
+Theorem vote_respects_snapshot_combined :
+  forall bm be, NoDup bm ->
+  forall a0 a sched, Raft.MemberRun.minitS a0 -> run Raft.MemberVotes.asys sys_event (Raft.MemberSnapSystemU.cstep bm be) a0 sched a ->
+    forall x m from li lt, In x (sy_nodes (fst a)) -> p_snap (n_p x) = Some m ->
+      can_grant_vote x from li lt = Ret true ->
+      sn_term m < lt \/ (lt = sn_term m /\ sn_index m <= li).
+Proof. exact C07.A_VoteC.vote_respects_snapshot_combined_lemma. Qed.
+Print Assumptions vote_respects_snapshot_combined.
